@@ -15,7 +15,7 @@ from . import common as C
 from . import runtime as R
 
 DRIVER = "acq_runtime"
-COSIM_CLASSES = ("single", "two", "mon", "latemon", "holdmon", "abort", "abortmon", "stofault", "camfault", "slowmon", "restart")
+COSIM_CLASSES = ("single", "two", "mon", "latemon", "holdmon", "abort", "abortmon", "stofault", "camfault", "slowmon", "restart", "reconf")
 
 
 def sig_of(msg):
@@ -81,6 +81,12 @@ def gen(rng, cls):
         streams[0]["n"] = 1000
         window = ["start", "sleep %d" % rng.randrange(1, 15), "map 0", "sleep %d" % rng.randrange(0, 15), "abort", "unmap 0 all",
                   "reconfigure %d" % n, "start", "map 0", "unmap 0 all", "monwait 0", "stop"]
+    elif cls == "reconf":
+        # acquire_configure while the acquisition runs (it re-arms the storage, so the run is disturbed), then stop or abort,
+        # then a regular acquisition
+        streams[0]["n"] = rng.choice([5, 50, 1000])
+        window = ["start", "sleep %d" % rng.randrange(0, 20), "reconfigure %d" % rng.choice([n, 1000, 3]), "sleep %d" % rng.randrange(0, 10),
+                  rng.choice(["stop", "abort", "abort"]), "reconfigure %d" % n, "start", "stop"]
     elif cls == "stofault":
         faults = ["sto 2 %d%s" % (rng.randrange(0, 4), rng.choice(["", " p"]))]
         streams[0]["n"] = rng.choice([3, 10, 30])
